@@ -385,8 +385,26 @@ package restful
 //@ nopanic
 //@ loop 0 invariant copy: fresh(result) && len(result) == len(c.webServices) && forall(0, it_i, func(k int) bool { return result[k] == c.webServices[k] })
 
+// introduction rules used in the soundness half of computeAllowedMethods (where the two definitions are hidden)
+//@ lemma C17.hit-intro
+//@ props C09 C17
+//@ forall rt Route, rest string
+//@ requires rt.pathExpr != nil && rxSubN(rt.pathExpr.Matcher, rest) >= 1 && (rxSubAt(rt.pathExpr.Matcher, rest, rxSubN(rt.pathExpr.Matcher, rest)-1) == "" || rxSubAt(rt.pathExpr.Matcher, rest, rxSubN(rt.pathExpr.Matcher, rest)-1) == "/")
+//@ ensures jsrRouteHit(rt, rest)
+//@ trigger rxSubN(rt.pathExpr.Matcher, rest)
+
+//@ lemma C17.allows-intro
+//@ props C09 C17
+//@ forall ws *WebService, p string, j int, me string
+//@ requires ws != nil && jsrSvcHit(ws, p) && 0 <= j && j < len(ws.routes) && jsrRouteHit(ws.routes[j], jsrFinal(ws, p)) && ws.routes[j].Method == me
+//@ ensures svcAllows(ws, p, me)
+//@ trigger svcAllows(ws, p, me), jsrRouteHit(ws.routes[j], jsrFinal(ws, p))
+
 //@ func (*Container).computeAllowedMethods
 //@ props C09 C17 C19
+//@ uses S/C17.hit-intro
+//@ uses S/C17.allows-intro
+//@ opt opaque.S svcAllows jsrRouteHit
 //@ requires c != nil && req != nil && req.Request != nil && req.Request.URL != nil && servicesLock(c) >= 0
 //@ requires services: forall(0, len(c.webServices), func(i int) bool { return matchersOK(c.webServices[i]) })
 //@ ensures fresh: fresh(result)
@@ -705,7 +723,7 @@ package restful
 // RouterJSR311.detectRoute: staged elimination shared by both routers (C01, C02)
 
 //@ func (RouterJSR311).detectRoute
-//@ props C01 C02 C17 C18
+//@ props C01 C02 C03 C17 C18
 //@ requires req: httpRequest != nil
 //@ requires lists: forall(0, len(routes), func(k int) bool { return wfRouteLists(routes[k]) })
 //@ ensures sound: result0 != nil ==> result1 == nil && candOK(result0, routes, httpRequest, 3)
@@ -1269,11 +1287,13 @@ package restful
 //@ nopanic
 //@ modifies nothing
 //@ loop 0 invariant fresh: filtered != nil && fresh(filtered) && (filtered.candidates == nil || fresh(filtered.candidates))
+//@ loop 0 invariant routes-of: forall(0, len(filtered.candidates), func(j int) bool { return exists(0, it_i, func(k int) bool { return jsrRouteHit(old(dispatcher.routes[k]), pathRemainder) && same(filtered.candidates[j].route, old(dispatcher.routes[k])) }) })
 //@ loop 0 invariant cands: forall(0, len(filtered.candidates), func(j int) bool { return exists(0, it_i, func(k int) bool { return jsrRouteHit(old(dispatcher.routes[k]), pathRemainder) && same(filtered.candidates[j], jsrRouteCand(old(dispatcher.routes[k]), pathRemainder)) }) })
 //@ loop 0 invariant K/complete: forall(0, it_i, func(k int) bool { return jsrRouteHit(old(dispatcher.routes[k]), pathRemainder) ==> exists(0, len(filtered.candidates), func(j int) bool { return same(filtered.candidates[j], jsrRouteCand(old(dispatcher.routes[k]), pathRemainder)) }) })
 //@ loop 1 invariant fresh: filtered != nil && fresh(filtered) && fresh(filtered.candidates) && fresh(matchingRoutes)
 //@ loop 1 invariant index: 1 <= c && c <= len(filtered.candidates) && len(matchingRoutes) == c
 //@ loop 1 invariant copied: forall(0, c, func(k int) bool { return same(matchingRoutes[k], filtered.candidates[k].route) })
+//@ loop 1 invariant routes-of: forall(0, len(filtered.candidates), func(j int) bool { return exists(0, old(len(dispatcher.routes)), func(k int) bool { return jsrRouteHit(old(dispatcher.routes[k]), pathRemainder) && same(filtered.candidates[j].route, old(dispatcher.routes[k])) }) })
 //@ loop 1 invariant cands: forall(0, len(filtered.candidates), func(j int) bool { return exists(0, old(len(dispatcher.routes)), func(k int) bool { return jsrRouteHit(old(dispatcher.routes[k]), pathRemainder) && same(filtered.candidates[j], jsrRouteCand(old(dispatcher.routes[k]), pathRemainder)) }) })
 //@ loop 1 invariant S/sound: forall(0, len(matchingRoutes), func(j int) bool { return exists(0, old(len(dispatcher.routes)), func(k int) bool { return same(matchingRoutes[j], old(dispatcher.routes[k])) && jsrRouteHit(old(dispatcher.routes[k]), pathRemainder) }) })
 
